@@ -25,6 +25,12 @@ mod ctl_pool {
 mod ctl_seq {
     include!("../ctl_seq.rs");
 }
+mod ctl_conn {
+    include!("../ctl_conn.rs");
+}
+mod ctl_scen {
+    include!("../ctl_scen.rs");
+}
 
 fn main() {
     let args: Vec<String> = std::env::args().collect();
@@ -38,6 +44,24 @@ fn main() {
     for i in first..first + n {
         // every scenario derives its own PRNG from (seed, i): batches can be split across processes
         let mut rng = Rng::new(seed.wrapping_mul(1_000_003).wrapping_add(i as u64));
+        let fam: Option<fn(usize, &mut Rng, &mut Vec<String>)> = match kind {
+            "seg" => Some(ctl_scen::seg_family),
+            "cut" => Some(ctl_scen::cut_family),
+            "resperr" => Some(ctl_scen::resperr_family),
+            "mt" => Some(ctl_scen::mt_family),
+            "ahead" => Some(ctl_scen::ahead_family),
+            _ => None,
+        };
+        if let Some(f) = fam {
+            let mut lines = vec![];
+            f(i * 1000, &mut rng, &mut lines);
+            for (j, l) in lines.iter().enumerate() {
+                // unique ids within a family
+                let l = l.replacen(&format!("conn id={}", i * 1000), &format!("conn id={}", i * 1000 + j), 1);
+                writeln!(out, "{}", l).unwrap();
+            }
+            continue;
+        }
         let line = match kind {
             "queue" => ctl_queue::run(i, &mut rng),
             "pool" => ctl_pool::run(i, &mut rng),
